@@ -214,6 +214,41 @@ def cont_points(leaf, rs, n=4):
     raise TypeError(type(leaf))
 
 
+def py_likelihood(root, x):
+    """independent float64 evaluation of a circuit on ONE complete row x (indexable by variable id): mixture / product semantics,
+    pmfs read off the parameters, continuous densities from the formulas above, Chow-Liu leaves as the product of their
+    table entries.  Used where the evidence is not representable in single precision."""
+    memo = {}
+    def val(o):
+        k = id(o)
+        if k in memo:
+            return memo[k]
+        if isinstance(o, Sum):
+            r = sum(float(w) * val(c) for w, c in zip(o.weights, o.children))
+        elif isinstance(o, Product):
+            r = 1.0
+            for c in o.children:
+                r *= val(c)
+        elif isinstance(o, BinaryCLT):
+            sc = [int(v) for v in o.scope]; par = np.asarray(o.params, dtype=np.float64); r = 1.0
+            for i, pa in enumerate(o.tree):
+                xi = int(x[sc[i]]); xp = 0 if pa == -1 else int(x[sc[pa]])
+                r *= math.exp(par[i, xp, xi]) if par[i, xp, xi] > -1e30 else 0.0
+        elif isinstance(o, Bernoulli):
+            xv = float(x[int(o.scope[0])]); pr = float(o.p)
+            r = pr if xv == 1.0 else (1.0 - pr if xv == 0.0 else 0.0)
+        elif isinstance(o, Categorical):
+            xv = x[int(o.scope[0])]; r = 0.0
+            for c, pr in zip(o.categories, o.probabilities):
+                if float(c) == float(xv) and int(c) == int(xv):
+                    r = float(pr)
+        else:
+            r = cont_density(o, float(x[int(o.scope[0])]))
+        memo[k] = r
+        return r
+    return val(root)
+
+
 # ------------------------------------------------------------------ object -> table
 def post_order(root):
     seen = {}; order = []
